@@ -33,6 +33,13 @@ type UnitResult struct {
 
 func (e *Engine) newExec(u *Unit, mode string) *Exec {
 	w := NewWorld(mode)
+	if u.Spec != nil {
+		for _, a := range u.Spec.Abstract {
+			if a == "bytecode.Type" {
+				w.DeclareAbstractInstr(a)
+			}
+		}
+	}
 	return &Exec{eng: e, w: w, unit: u, compSorts: map[string]Sort{}, closureIDs: map[*SV]*Term{}, closureOf: map[string]*SV{},
 		writes: map[string]bool{}, entryEnv: map[string]*SV{}, oblSeq: map[string]int{}}
 }
@@ -65,7 +72,8 @@ func (e *Engine) VerifyFunc(con *Contract, workdir string, timeoutS int, all boo
 		key += "{canary}"
 	}
 	res := &UnitResult{Key: key, Tags: con.Tags, Canary: con.Canary, Trusted: con.Trusted, Bounded: con.Bounded}
-	if con.Trusted {
+	if con.Trusted || con.View {
+		res.Trusted = true
 		return res
 	}
 	u := &Unit{Key: key, Con: con, Fn: fn, Spec: ps}
@@ -108,7 +116,9 @@ func (e *Engine) VerifyFunc(con *Contract, workdir string, timeoutS int, all boo
 			}
 			return def
 		}
-		if con.Implements != "" {
+		if con.Implements != "" && strings.Contains(con.Implements, ".") && fn.Signature.Recv() != nil {
+			// a method implementing an interface method: self is the receiver seen through the interface (bound below)
+		} else if con.Implements != "" {
 			if fn.Parent() == nil && len(fn.FreeVars) == 0 {
 				x.entryEnv["self"] = TV(x.fnTerm(&SV{Fn: fn}))
 			} else {
@@ -120,7 +130,12 @@ func (e *Engine) VerifyFunc(con *Contract, workdir string, timeoutS int, all boo
 			if n == "" || n == "_" {
 				n = "recv"
 			}
-			args = append(args, bind(nameAt(idx, n), sig.Recv().Type(), idx))
+			rv := bind(nameAt(idx, n), sig.Recv().Type(), idx)
+			args = append(args, rv)
+			if con.Implements != "" && strings.Contains(con.Implements, ".") {
+				rt := sig.Recv().Type()
+				x.entryEnv["self"] = TV(x.w.iface.Make(x.w.TypeID(rt), x.w.Box(rt, x.svTerm(rv))))
+			}
 			idx++
 		}
 		for i := 0; i < sig.Params().Len(); i++ {
